@@ -147,6 +147,9 @@ func modelWitness(h string, inputs []sym.InputDecl, m sym.Model) (witness, bool)
 }
 
 // nativeReplay runs the witnesses against the natively compiled real code.
+// Witnesses expected to pass run in one process; witnesses of violations run
+// one process each under an address-space limit, so that a decoder that takes
+// the process down (fatal out-of-memory) is observed as outcome "crash".
 func nativeReplay(repo, verif, pkg string, ws []witness) ([]nativeOutcome, error) {
 	if len(ws) == 0 {
 		return nil, nil
@@ -178,25 +181,87 @@ func nativeReplay(repo, verif, pkg string, ws []witness) ([]nativeOutcome, error
 	ovj, _ := json.Marshal(map[string]interface{}{"Replace": repl})
 	ovPath := filepath.Join(tmp, "overlay.json")
 	os.WriteFile(ovPath, ovj, 0o644)
-	wj, _ := json.Marshal(ws)
-	wPath := filepath.Join(tmp, "witnesses.json")
-	os.WriteFile(wPath, wj, 0o644)
-	outPath := filepath.Join(tmp, "out.json")
-	cmd := exec.Command("go", "test", "-tags", "verif", "-overlay", ovPath, "-vet=off", "-count=1",
-		"-run", "^TestVerifReplay$", "-timeout", "20m", "./"+pkg)
+	bin := filepath.Join(tmp, "replay.test")
+	cmd := exec.Command("go", "test", "-c", "-tags", "verif", "-overlay", ovPath, "-vet=off", "-o", bin, "./"+pkg)
 	cmd.Dir = repo
-	cmd.Env = append(os.Environ(), "GOFLAGS=-mod=mod", "GOPROXY=off", "GOSUMDB=off", "GOTOOLCHAIN=local",
-		"VERIF_REPLAY="+wPath, "VERIF_OUT="+outPath)
-	out, err := cmd.CombinedOutput()
-	data, rerr := os.ReadFile(outPath)
-	if rerr != nil {
-		return nil, fmt.Errorf("native replay failed: %v\n%s", err, tail(string(out), 3000))
+	cmd.Env = append(os.Environ(), "GOFLAGS=-mod=mod", "GOPROXY=off", "GOSUMDB=off", "GOTOOLCHAIN=local")
+	if out, err := cmd.CombinedOutput(); err != nil {
+		return nil, fmt.Errorf("native replay build failed: %v\n%s", err, tail(string(out), 3000))
 	}
-	var outs []nativeOutcome
-	if err := json.Unmarshal(data, &outs); err != nil {
-		return nil, err
+	runBatch := func(id string, batch []witness, limitKB int) ([]nativeOutcome, string, error) {
+		wj, _ := json.Marshal(batch)
+		wPath := filepath.Join(tmp, "w"+id+".json")
+		os.WriteFile(wPath, wj, 0o644)
+		outPath := filepath.Join(tmp, "o"+id+".json")
+		sh := fmt.Sprintf("ulimit -v %d; exec %s -test.run '^TestVerifReplay$' -test.count=1 -test.timeout=20m", limitKB, bin)
+		c := exec.Command("sh", "-c", sh)
+		c.Dir = filepath.Join(repo, pkg)
+		c.Env = append(os.Environ(), "VERIF_REPLAY="+wPath, "VERIF_OUT="+outPath)
+		out, err := c.CombinedOutput()
+		data, rerr := os.ReadFile(outPath)
+		if rerr != nil {
+			return nil, firstLines(string(out), 3), fmt.Errorf("no result: %v", err)
+		}
+		var outs []nativeOutcome
+		if err := json.Unmarshal(data, &outs); err != nil {
+			return nil, "", err
+		}
+		return outs, "", nil
 	}
-	return outs, nil
+	res := make([]nativeOutcome, len(ws))
+	var safeIdx []int
+	var safe []witness
+	var risky []int
+	for k, w := range ws {
+		if w.Expect == "ok" {
+			safeIdx = append(safeIdx, k)
+			safe = append(safe, w)
+		} else {
+			risky = append(risky, k)
+		}
+	}
+	if len(safe) > 0 {
+		outs, msg, err := runBatch("safe", safe, 16<<20)
+		if err != nil {
+			return nil, fmt.Errorf("native replay of passing paths crashed: %v: %s", err, msg)
+		}
+		for k, o := range outs {
+			res[safeIdx[k]] = o
+		}
+	}
+	type job struct{ k int }
+	jobs := make(chan int)
+	done := make(chan bool)
+	nw := 6
+	for w := 0; w < nw; w++ {
+		go func() {
+			for k := range jobs {
+				outs, msg, err := runBatch(fmt.Sprint("r", k), []witness{ws[k]}, 6<<20)
+				if err != nil || len(outs) != 1 {
+					res[k] = nativeOutcome{Index: k, Harness: ws[k].Harness, Outcome: "crash", Msg: msg}
+				} else {
+					res[k] = outs[0]
+				}
+			}
+			done <- true
+		}()
+	}
+	for _, k := range risky {
+		jobs <- k
+	}
+	close(jobs)
+	for w := 0; w < nw; w++ {
+		<-done
+	}
+	return res, nil
+}
+
+func firstLines(s string, n int) string {
+	ls := strings.Split(s, "\n")
+	if len(ls) > n {
+		ls = ls[:n]
+	}
+	return strings.Join(ls, " | ")
 }
 
 func tail(s string, n int) string {
@@ -294,6 +359,8 @@ func cmdCheck(args []string) int {
 				MaxPaths: h.MaxPaths, HuntMode: h.Hunt, MapOrder: mo}
 			if h.DeadlineSec > 0 {
 				spec.Deadline = time.Duration(h.DeadlineSec) * time.Second
+			} else if *tier == "quick" {
+				spec.Deadline = 10 * time.Minute
 			}
 			spec.Cfg.Unwind = h.Unwind
 			spec.Cfg.MaxPicks = h.MaxPicks
@@ -336,8 +403,14 @@ func cmdCheck(args []string) int {
 	inconclusive := []string{}
 	for _, r := range runs {
 		for _, hr := range r.rs {
+			perKey := map[string]int{}
 			for _, v := range hr.Violations {
 				if strings.HasPrefix(v.Kind, "spurious-") {
+					continue
+				}
+				vk := v.Kind + "|" + v.Label
+				perKey[vk]++
+				if perKey[vk] > 2 {
 					continue
 				}
 				if v.Model == nil {
@@ -456,9 +529,9 @@ func cmdCheck(args []string) int {
 		case "assert":
 			repro = o.Outcome == "assert" && o.Msg == vr.v.Label
 		case "panic":
-			repro = o.Outcome == "panic"
+			repro = o.Outcome == "panic" || o.Outcome == "crash"
 		case "alloc":
-			repro = o.AllocMB*(1<<20) > float64(vr.h.AllocBudget) || o.Outcome == "panic"
+			repro = o.AllocMB*(1<<20) > float64(vr.h.AllocBudget) || o.Outcome == "panic" || o.Outcome == "crash"
 		case "frozen-write":
 			// a write into caller-owned memory is visible natively only through
 			// the harness' own re-read assertions; report the symbolic finding
@@ -751,7 +824,7 @@ func doReplay(repo, verif, prop, path string) int {
 	}
 	o := outs[0]
 	fmt.Printf("replay harness=%s inputs=%v\n  native outcome=%s msg=%q alloc_mb=%.1f reached=%v\n", w.Harness, w.Inputs, o.Outcome, o.Msg, o.AllocMB, o.Reached)
-	if o.Outcome == "assert" || o.Outcome == "panic" {
+	if o.Outcome == "assert" || o.Outcome == "panic" || o.Outcome == "crash" || (w.Expect == "alloc" && o.AllocMB > 64) {
 		fmt.Printf("VIOLATION property=%s replay=%s\n", prop, path)
 		return 1
 	}
